@@ -43,21 +43,25 @@ def describe(e):
     return {"type": type(e).__name__, "msg": str(e).split("\n")[0][:300]}
 
 
+_pkg = "p"
+
+
 def load(unit):
-    if unit not in _cache:
+    key = unit + "/" + _pkg
+    if key not in _cache:
         try:
-            models = importlib.import_module(unit + ".models.p")
+            models = importlib.import_module(unit + ".models." + _pkg)
             enc = importlib.import_module(unit + ".cog.encoder").JSONEncoder
             try:
-                builders = importlib.import_module(unit + ".builders.p")
+                builders = importlib.import_module(unit + ".builders." + _pkg)
             except ModuleNotFoundError:
                 builders = None
-            _cache[unit] = (models, builders, enc, None)
+            _cache[key] = (models, builders, enc, None)
         except BaseException as e:
             if isinstance(e, (KeyboardInterrupt, SystemExit)):
                 raise
-            _cache[unit] = (None, None, None, describe(e))
-    return _cache[unit]
+            _cache[key] = (None, None, None, describe(e))
+    return _cache[key]
 
 
 def norm(s):
@@ -139,8 +143,10 @@ def construct(unit, spec):
 
 
 def handle(req):
+    global _pkg
     op = req.get("op")
     unit = req["unit"]
+    _pkg = req.get("pkg") or "p"
     models, builders, enc, err = load(unit)
     if err is not None:
         return {"problem": "import: " + err["type"] + ": " + err["msg"], "import_error": err}
